@@ -139,6 +139,15 @@ func c05Oracle(sc *Scenario, rec *Rec, s *mc.Sched) []mc.Violation {
 			}
 		}
 	}
+	// deadlock: scripts that must run to completion on the (pessimistic) reference model of a stream
+	// leave nothing blocked, whether or not the handler got as far as returning
+	if !handlerDone && !ctxDone && sc.Cancel == "" && !misuse && len(sc.RPCs) == 1 && sc.Transport == "inproc" && refTerminates(&sc.RPCs[0]) {
+		for _, b := range blocked {
+			if strings.HasPrefix(b.Where, "client:") || strings.HasPrefix(b.Where, "handler:") {
+				out = append(out, mc.Violation{Clause: "deadlock", Obs: b.Where + " on " + b.Op, Detail: blocked})
+			}
+		}
+	}
 	for i := range sc.RPCs {
 		rpc := &sc.RPCs[i]
 		rr := rec.RPCs[i]
